@@ -351,6 +351,307 @@ def cache_event(out, thname, item, rnd):
             pass
 
 
+# ------------------------------------------------------------------------------------ generated editing sessions
+class GenItem:
+    """stands for a library item in the events of a generated goal"""
+    def __init__(self, name, vars_):
+        self.name, self.vars = name, vars_
+
+
+def gaps_of(state):
+    return [it for it in flat(state.prf) if it.rule == "sorry"]
+
+
+def fact_for(state, goal_it, pred):
+    """id of the first line visible from the goal that satisfies pred"""
+    for it in flat(state.prf):
+        if it.th is not None and it.rule not in ("sorry", "variable") and goal_it.id.can_depend_on(it.id) and pred(it):
+            return str(it.id)
+    return None
+
+
+def on_gap(k, method_name, facts=(), **params):
+    """step maker: method on the k-th open gap (textual order); facts = predicates on lines selecting the cited facts"""
+    def mk(state):
+        gs = gaps_of(state)
+        if k >= len(gs):
+            return None
+        fids = [fact_for(state, gs[k], pr) for pr in facts]
+        if any(f is None for f in fids):
+            return None
+        st = {"method_name": method_name, "goal_id": str(gs[k].id), "fact_ids": fids}
+        st.update(params)
+        return st
+    return mk
+
+
+def prop_is(txt):
+    """predicate: the line states (under any hypotheses) the proposition printed as txt (ascii, no type annotations)"""
+    def pr(it):
+        with global_setting(unicode=False, highlight=False):
+            return str(it.th.prop) == txt
+    return pr
+
+
+ATOMS = ["'a", "'b", "'c", "bool"]
+BOUND = ["x", "y", "z", "k", "m", "n", "u", "v"]
+
+
+def gen_sibling_binders(rnd, n):
+    """conjunction of universally quantified conjuncts over the SAME bound name at DIFFERENT types; conjI backward, then
+    introduction with that name in each sibling subproof (any order); conjuncts of the form F v & G v --> F v are then
+    closed by a forward step whose result merges the inner gap away"""
+    k = rnd.choice([2, 2, 3])
+    tys = rnd.sample(ATOMS, k)
+    nm = rnd.choice(BOUND)
+    vars_, conj, forms = {}, [], []
+    for i, T in enumerate(tys):
+        F, G = "F%d" % i, "G%d" % i
+        vars_[F], vars_[G] = "%s => bool" % T, "%s => bool" % T
+        form = rnd.choice(["imp", "conjD", "bare"])
+        forms.append(form)
+        body = {"imp": "%s %s --> %s %s" % (F, nm, G, nm), "conjD": "%s %s & %s %s --> %s %s" % (F, nm, G, nm, F, nm),
+                "bare": "%s %s" % (F, nm)}[form]
+        conj.append("(!%s::%s. %s)" % (nm, T, body))
+    script = [(on_gap(j, "apply_backward_step", theorem="conjI"), None) for j in range(k - 1)]
+    order = list(range(k))
+    rnd.shuffle(order)
+    for j in order:
+        script.append((on_gap(j, "introduction", names=nm), None))
+    for j in order:
+        if forms[j] == "conjD":
+            script.append((on_gap(j, "apply_forward_step", facts=[prop_is("F%d %s & G%d %s" % (j, nm, j, nm))], theorem="conjD1"), None))
+            break       # afterwards the ordinals of the gaps have moved
+    return {"name": "sibling_binders_%d" % n, "shape": "sibling-binders", "vars": vars_, "prop": " & ".join(conj), "script": script,
+            "shape_ok": sibling_binders}
+
+
+def gen_exists_twice(rnd, n):
+    """several existential assumptions; exists_elim on each of them IN THE SAME SCOPE: the first on the live state, the later
+    ones on copies taken afterwards"""
+    k = rnd.choice([2, 2, 3])
+    vars_, assums = {}, []
+    for i in range(k):
+        T = rnd.choice(ATOMS)
+        vars_["P%d" % i] = "%s => bool" % T
+        assums.append("(?%s. P%d %s)" % (rnd.choice(BOUND), i, "%s"))
+    assums = [a % a[2:a.index(".")] for a in assums]
+    concl = rnd.choice(["R", "R", "?%s. P0 %s" % ("t", "t")])
+    if concl == "R":
+        vars_["R"] = "bool"
+    order = list(range(k))
+    rnd.shuffle(order)
+    script = []
+    for j, i in enumerate(order):
+        script.append((on_gap(0, "exists_elim", facts=[prop_is(assums[i][1:-1])], names="c%d" % (10 * n % 7 + j)),
+                       "live" if j == 0 else "copy"))
+
+    def ok(state):
+        return any(it.rule == "intros" and isinstance(it.args, list) and len(it.args) >= 2 for it in flat(state.prf))
+    return {"name": "exists_twice_%d" % n, "shape": "exists-twice", "vars": vars_, "prop": " --> ".join(assums + [concl]),
+            "script": script, "shape_ok": ok}
+
+
+def gen_cut_merged(rnd, n):
+    """cut an intermediate goal G, turn the LATER goal into a subproof (introduction): its closing line now cites G's line;
+    then establish G by forward steps from an assumption: the result states G, so G's line is merged away (replace_id) and
+    the citation inside the sibling subproof must follow.  Optionally the whole thing sits inside an outer subproof."""
+    vars_ = {"A": "bool", "B": "bool", "C": "bool", "D": "bool"}
+    target = rnd.choice(["A", "B"])
+    nested = rnd.random() < 0.4
+    pair = rnd.choice(["A & B", "B & A"])
+    assum = "(%s) & D" % pair if nested else pair
+    T, T2 = rnd.choice(ATOMS), rnd.choice(ATOMS)
+    x, z = rnd.sample(BOUND, 2)
+    later = rnd.choice(["!%s::%s. C --> %s", "!%s::%s. C --> D --> %s", "!%s::%s. %s"]) % (x, T, target)
+    wrap = rnd.random() < 0.4
+    prop = "%s --> (%s)" % (assum, later)
+    if wrap:
+        prop = "!%s::%s. %s" % (z, T2, prop)
+    script = []
+    if wrap:
+        script.append((on_gap(0, "introduction", names=z), None))
+    script.append((on_gap(0, "cut", goal=target), None))
+    script.append((on_gap(1, "introduction", names=x), None))
+    if nested:
+        script.append((on_gap(0, "apply_forward_step", facts=[prop_is(assum)], theorem="conjD1"), None))
+    script.append((on_gap(0, "apply_forward_step", facts=[prop_is(pair)], theorem="conjD1" if pair.startswith(target) else "conjD2"), None))
+
+    def ok(state):
+        # no gap left, and a line inside a block cites a forward step outside of it
+        fw = [it.id for it in flat(state.prf) if it.rule == "apply_theorem"]
+        return not gaps_of(state) and any(len(it.id.id) > len(f.id) and f in it.prevs for it in flat(state.prf) for f in fw)
+    return {"name": "cut_merged_%d" % n, "shape": "cut-merged", "vars": vars_, "prop": prop, "script": script, "shape_ok": ok}
+
+
+WALK_GOALS = [
+    ({"P": "'a => bool", "Q": "'a => bool", "R": "'a => bool"}, "(?x. P x & Q x) --> (!y. P y --> R y) --> (?z. R z)"),
+    ({"P": "'a => bool", "Q": "'b => bool"}, "(!x. P x) & (!x. Q x) --> (!y. P y) & (!y. Q y)"),
+    ({"P": "'a => bool", "A": "bool", "B": "bool"}, "(A | B) --> (A --> (?x. P x)) --> (B --> (?x. P x)) --> (?x. P x)"),
+    ({"P": "'a => 'b => bool"}, "(?x. !y. P x y) --> (!y. ?x. P x y)"),
+    ({"A": "bool", "B": "bool", "C": "bool"}, "(A --> B) --> (B --> C) --> A --> C"),
+    ({"P": "'a => bool", "Q": "'a => bool"}, "(!x. P x --> Q x) --> (?x. P x) --> (?x. Q x)"),
+    ({"A": "bool", "B": "bool"}, "A & B --> B & A"),
+    ({"A": "bool", "B": "bool"}, "A | B --> B | A"),
+]
+
+
+def gen_walk(rnd, n):
+    vars_, prop = rnd.choice(WALK_GOALS)
+    return {"name": "walk_%d" % n, "shape": "walk", "vars": dict(vars_), "prop": prop,
+            "script": [(on_gap(0, "introduction", names="a1, a2"), None)] if rnd.random() < 0.5 else [], "shape_ok": lambda st: True}
+
+
+def run_sessions(out, rnd, nsess):
+    """generated editing sessions in theory logic; a session whose step raises ends there (the property is conditional)"""
+    basic.load_theory("logic")
+    gens = [gen_sibling_binders, gen_exists_twice, gen_cut_merged, gen_walk]
+    for n in range(nsess):
+        sess = gens[n % len(gens)](rnd, n)
+        item = GenItem(sess["name"], sess["vars"])
+        extra = {"session": sess["name"], "shape": sess["shape"], "done": False, "shape_ok": False}
+        try:
+            context.set_context(None, vars=item.vars)
+            state = server.parse_init_state(sess["prop"])
+        except Exception as e:
+            sys.stderr.write("session %s: goal not stated: %s\n" % (sess["name"], e))
+            continue
+        goal = sid(state.prf.items[-1].th)
+        edit_event(out, "gen", item, goal, state, 0, "init", {}, None, extra)
+        completed = True
+        for idx, (mk, route) in enumerate(sess["script"], 1):
+            context.set_context(None, vars=item.vars)
+            step = mk(state)
+            if step is None:
+                completed = False
+                break
+            last = idx == len(sess["script"])
+            route = route or rnd.choice(["live", "copy"])
+            if route == "copy":
+                trial, before, after, err = apply_on_copy(state, step)
+                if trial is None:
+                    sys.stderr.write("session %s step %d raised: %r\n" % (sess["name"], idx, err))
+                    completed = False
+                    break
+                state, info = trial, (before, after)
+            else:
+                keep = copy.copy(state)
+                try:
+                    method.apply_method(state, step)
+                    state.check_proof(compute_only=True)
+                except Exception as err:
+                    sys.stderr.write("session %s step %d raised: %r\n" % (sess["name"], idx, err))
+                    state, completed = keep, False
+                    break
+                info = None
+            ex = dict(extra)
+            if last:
+                ex["done"], ex["shape_ok"] = True, bool(sess["shape_ok"](state))
+            edit_event(out, "gen", item, goal, state, idx, route, step, info, ex)
+        if completed and not sess["script"]:
+            pass
+        # seeded random walks from wherever the session got to
+        context.set_context(None, vars=item.vars)
+        random_walks(out, "gen", item, goal, state, len(sess["script"]) + 1, rnd, nwalks=2 if sess["shape"] == "walk" else 1,
+                     maxdepth=4, extra=extra)
+
+
+# ------------------------------------------------------------------------------------ line edits (spec -> code)
+LE_RULE = "fact"      # any rule name: with a stated sequent the editing functions' check_proof(compute_only=True) skips the line
+
+
+def le_uid(it):
+    return it.args if isinstance(it.args, int) and not isinstance(it.args, bool) else -1
+
+
+def le_project(state):
+    return [[ids(it.id), le_uid(it), [ids(p) for p in it.prevs]] for it in flat(state.prf)]
+
+
+def le_build(lines):
+    """a real ProofState whose lines mirror the abstract proof: line = ProofItem with a distinct stated sequent; a block is an
+    item with rule `subproof`; the ghost uid rides in `args` (kept by ProofItem.__copy__, not looked at by the line edits)"""
+    from kernel.proof import ProofItem, Proof
+    from kernel.term import Var
+    from kernel.type import BoolType
+    st = method.ProofState()
+    for i, (id_, uid, prevs) in enumerate(lines):
+        block = i + 1 < len(lines) and lines[i + 1][0] == list(id_) + [0]
+        it = ProofItem(ItemID(tuple(id_)), "subproof" if block else LE_RULE, args=uid, prevs=[tuple(p) for p in prevs],
+                       th=Thm(Var("u%d" % uid, BoolType)))
+        if block:
+            it.subproof = Proof()
+        st.prf.insert_item(it)
+    st.check_proof(compute_only=True)
+    return st
+
+
+def le_apply(state, op, next_uid):
+    name, a, b = op[0], ItemID(tuple(op[1])), ItemID(tuple(op[2]))
+    if name == "add":
+        state.add_line_before(a, 1)
+        state.get_proof_item(a).args = next_uid          # ghost identity of the new line
+    elif name == "remove":
+        state.remove_line(a)
+    elif name == "replace":
+        state.replace_id(a, b)
+    elif name == "cite":
+        it = state.get_proof_item(a)
+        if it.subproof is not None:
+            it.prevs = it.prevs + [b]                    # a block keeps its lines: edited in place, as the methods do
+            state.check_proof(compute_only=True)
+        else:
+            state.set_line(a, it.rule, args=it.args, prevs=it.prevs + [b], th=it.th)
+    else:
+        raise ValueError(name)
+
+
+def seqj(x):
+    """TLC prints an empty function as {} and a sequence as [...]"""
+    if isinstance(x, dict):
+        return [] if not x else [seqj(x[k]) for k in sorted(x, key=int)]
+    if isinstance(x, list):
+        return [seqj(y) for y in x]
+    return x
+
+
+def run_lineedit(out, vec_path, rnd):
+    theory.thy = theory.EmptyTheory()
+    nvec = 0
+    for ln in open(vec_path, errors="replace"):
+        if not ln.startswith('<<"LE", '):
+            continue
+        vec = json.loads(json.loads(ln.strip()[len('<<"LE", '):-2]))
+        init, steps, log_all = seqj(vec["init"]), seqj(vec["steps"]), vec["log"] == "all"
+        if not steps:
+            continue
+        nvec += 1
+        state = le_build(init)
+        next_uid = max(l[1] for l in init) + 1
+        path = []
+        for si, stp in enumerate(steps):
+            op = seqj(stp["op"])
+            path.append(op[0] + ".".join(map(str, op[1])) + ("_" + ".".join(map(str, op[2])) if op[2] else ""))
+            before = le_project(state)
+            on_copy = rnd.random() < 0.5
+            target = copy.copy(state) if on_copy else state
+            exc = ""
+            try:
+                le_apply(target, op, next_uid)
+            except Exception as e:
+                exc = type(e).__name__ + ": " + str(e)[:80]
+            if op[0] == "add":
+                next_uid += 1
+            if log_all or si == len(steps) - 1 or exc:
+                out.emit({"kind": "lineedit", "op": op, "before": before, "after": le_project(target), "expect": seqj(stp["after"]),
+                          "raised": bool(exc), "exc": exc, "copy": [on_copy, before if on_copy else [], le_project(state) if on_copy else []],
+                          "nlines": len(init), "depth": si + 1, "key": "lineedit:%d:%s" % (len(init), ">".join(path))})
+            if exc:
+                break
+            state = target
+    return nvec
+
+
 # --------------------------------------------------------------------------------------------------- C14
 def run_suggest(out, theories, rnd, n_per):
     for thname, item in thm_iter(theories, rnd, n_per):
@@ -361,8 +662,11 @@ def run_suggest(out, theories, rnd, n_per):
             continue
         for idx, step in enumerate(item.steps):
             context.set_context(None, vars=item.vars)
-            queries = [(step["goal_id"], list(step.get("fact_ids", []) or []), True)]
             gaps = [it for it in flat(state.prf) if it.rule == "sorry"]
+            # the property speaks about a selected GOAL: only open gaps are queried (a recorded forward step may name a proved line)
+            queries = []
+            if any(str(g.id) == str(step["goal_id"]) for g in gaps):
+                queries.append((step["goal_id"], list(step.get("fact_ids", []) or []), True))
             if gaps and rnd.random() < 0.5:
                 g = rnd.choice(gaps)
                 facts = [it for it in flat(state.prf) if it.th is not None and it.rule not in ("sorry", "variable") and g.id.can_depend_on(it.id)]
@@ -455,12 +759,21 @@ def suggest_event(out, thname, item, state, idx, gid, r, rec_step):
 
 
 if __name__ == "__main__":
-    mode, path, seed_, n_per = sys.argv[1], sys.argv[2], int(sys.argv[3]), int(sys.argv[4])
+    mode = sys.argv[1]
+    if mode == "lineedit":
+        out = Out(sys.argv[3])
+        n = run_lineedit(out, sys.argv[2], random.Random(int(sys.argv[4]) if len(sys.argv) > 4 else 0))
+        out.f.close()
+        print(mode, "vectors", n, "events", out.tid)
+        sys.exit(0)
+    path, seed_, n_per = sys.argv[2], int(sys.argv[3]), int(sys.argv[4])
     theories = sys.argv[5].split(",")
     rnd = random.Random(seed_)
     out = Out(path)
     if mode == "edit":
         run_edit(out, theories, rnd, n_per)
+        if len(sys.argv) > 6 and int(sys.argv[6]) > 0:
+            run_sessions(out, random.Random(seed_ + 1), int(sys.argv[6]))
     else:
         run_suggest(out, theories, rnd, n_per)
     out.f.close()
